@@ -6,7 +6,7 @@ import PSO.Model.Framing
 One JSON object per input line = one case:
 
 ```
-{"timeout":T, "enc":[[id,"hex"],...], "dec":[["hex",id],...], "none":[ids], "cbdisc":[ids],
+{"timeout":T, "enc":[[id,"hex"],...], "dec":[["hex",id],...], "none":[ids] (pinned mode only), "cbdisc":[ids],
  "pinned":false, "init":{"sock":true,"now":0},
  "evs":[{"k":"send","m":id,"now":n,"s":[SendRes...]},
         {"k":"poll","d":true,"rd":b,"wr":b,"er":b,"now":n,"so":b,"oc":b,"s":[SendRes...],"r":[RecvRes...]},
@@ -86,30 +86,30 @@ def parseEv (j : Json) : Ev Nat :=
 
 /-! The pinned reader: same loop and same READ branch, `parseOnePinned` in place of `parseOne`
 (witness only; fuel = buffer length + 1 because the pinned function need not shrink the buffer). -/
-def parseLoopPinned (cfg : Cfg Nat) : Nat → Conn Nat → Conn Nat
+def parseLoopPinned (cfg : Cfg Nat) (nones : List Nat) : Nat → Conn Nat → Conn Nat
   | 0, c => c
   | fuel + 1, c =>
     match parseOnePinned cfg.dec c.rbuf with
     | .wait => c
     | .bad => disconnect c
     | .msg m rest =>
-      if cfg.isNone m then { c with rbuf := rest }
+      if nones.contains m then { c with rbuf := rest }      -- pinned loop: `if message is None: break` (before D75)
       else
         let c' := { c with rbuf := rest, delivered := c.delivered ++ [m] }
-        if cfg.cbDisc m then disconnect c' else parseLoopPinned cfg fuel c'
+        if cfg.cbDisc m then disconnect c' else parseLoopPinned cfg nones fuel c'
 
-def pollPinned (cfg : Cfg Nat) (c : Conn Nat) (e : PollEv) : Conn Nat :=
+def pollPinned (cfg : Cfg Nat) (nones : List Nat) (c : Conn Nat) (e : PollEv) : Conn Nat :=
   -- only used for plain READ events (the witness)
   if c.state != .connected then c else
   let c := recvLoop c e.recvs
   let c := { c with lastRead := e.now }
-  if c.state = .disconnected then c else parseLoopPinned cfg (c.rbuf.length + 1) c
+  if c.state = .disconnected then c else parseLoopPinned cfg nones (c.rbuf.length + 1) c
 
 /-- diagnostic: payloads (complete, non-negative length) on which `dec` fails while parsing `rb` -/
 partial def undecodable (cfg : Cfg Nat) (rb : Bytes) : List Bytes :=
   match parseOne cfg.dec rb with
   | .wait => []
-  | .msg m rest => if cfg.isNone m || cfg.cbDisc m then [] else undecodable cfg rest
+  | .msg m rest => if cfg.cbDisc m then [] else undecodable cfg rest
   | .bad =>
     if rb.length ≥ 4 ∧ leInt32 rb ≥ 0 then [(rb.drop 4).take (leInt32 rb).toNat] else []
 
@@ -131,7 +131,6 @@ def runCase (j : Json) : Json :=
   let cfg : Cfg Nat :=
     { enc := fun m => ((encT.find? (·.1 == m)).map (·.2)).getD []
       dec := fun p => (decT.find? (fun e => e.1.length == p.length && e.1 == p)).map (·.2)
-      isNone := fun m => nones.contains m
       cbDisc := fun m => cbd.contains m
       timeout := getNat j "timeout" }
   let pinned := getBool j "pinned"
@@ -141,7 +140,7 @@ def runCase (j : Json) : Json :=
   let (cN, steps, undec) := evs.foldl (fun (acc : Conn Nat × Array Json × List Bytes) ev =>
       let (c, steps, undec) := acc
       let c' := match pinned, ev with
-        | true, .poll e => pollPinned cfg c e
+        | true, .poll e => pollPinned cfg nones c e
         | _, _ => step cfg c ev
       let ud := match ev with
         | .poll e => if e.rd && c'.nDisc > c.nDisc then undecodable cfg (recvLoop c e.recvs).rbuf else []
